@@ -10,7 +10,7 @@ from vf.checks import c02
 RULE = ('RESPONDER: a hub daemon with two configured peers holds e established IKE_SAs (e in {0,1,3}, created by an independent initiator with valid AUTH) and '
         'h half-open ones, for thresholds {0,3,10} and h in {0, thr-1, thr, thr+1, thr+2, 3*thr}; then receives IKE_SA_INIT requests with cookies: absent, '
         'correct, single bits flipped, truncated, extended, replayed with another SPI / nonce / source address, two cookies (right first, wrong first, both wrong), a '
-        'cookie minted by a previous controller incarnation. Oracle (through the real main_loop, DH constructors and compute_secret tapped): when the half-open '
+        'cookie minted by a previous controller incarnation, and requests that re-use the initiator SPI of a half-open IKE_SA just created through a cookie round (late copy of the cookie-less request, the cookie-bearing request replayed from the other peer address, another nonce with / without the old cookie). Oracle (through the real main_loop, DH constructors and compute_secret tapped): when the half-open '
         'count already exceeds the threshold and no presented cookie equals HMAC-SHA256(secret, SPIi | Ni | source address) (computed with hmac), the reply is exactly '
         'one payload N(COOKIE) carrying that value, Message ID 0, zero DH operations in the step and the table is as before; with the right cookie and unchanged '
         'SPI / nonce / address the normal response (SA, KE, Nonce) follows. INITIATOR: a real initiator answered with N(COOKIE) must repeat its request with '
@@ -137,6 +137,34 @@ def responder_case(ck, rng, thr, e, h, variant, i):
             sim.net.clear()
         half = sum(1 for s in hub.ctl.ike_sas if s.state.value < 10)
     d, *_ = request(rng, cookies, send_spi, send_nonce)
+    if variant.startswith('half-open-spi:'):
+        # r1 (no cookie) -> challenge -> r2 (cookie) -> full response and a half-open IKE_SA with this initiator SPI
+        r1, spi, nonce, ke = request(rng)
+        sim.inject(hub, P1A, HUB, r1)
+        rep = sim.net.pop(0).data if sim.net else None
+        sim.net.clear()
+        mm = codec.decode(rep, strict_bodies=False) if rep else None
+        c1 = next((x['data'] for x in (mm['payloads'] if mm else []) if x['type'] == codec.NOTIFY and x.get('ntype') == 16390), None)
+        r2 = None
+        if c1 is not None:
+            r2, *_ = request(rng, [c1], spi, nonce, ke)
+            sim.inject(hub, P1A, HUB, r2)
+            sim.net.clear()
+            ck.count('responder.half_open_spi_setups_with_cookie')
+        half = sum(1 for s_ in hub.ctl.ike_sas if s_.state.value < 10)
+        send_spi, send_nonce, send_src, cookies = spi, nonce, P1A, []
+        what = variant.split(':')[1]
+        if what == 'late-copy-of-the-cookieless-request':
+            d = r1
+        elif what == 'cookie-request-replayed-from-another-address':
+            d, send_src, cookies = (r2 or r1), P2A, ([c1] if c1 else [])
+        elif what == 'other-nonce-and-ke-no-cookie':
+            send_nonce = gen.rb(rng, 32)
+            d, *_ = request(rng, [], spi, send_nonce)
+        else:
+            send_nonce = gen.rb(rng, 32)
+            cookies = [c1] if c1 else []
+            d, *_ = request(rng, cookies, spi, send_nonce)
     valid = any(c == cookie_for(secret, send_spi, send_nonce, send_src) for c in cookies)
     first_valid = bool(cookies) and cookies[0] == cookie_for(secret, send_spi, send_nonce, send_src)
     ids_before = [id(s) for s in hub.ctl.ike_sas]
@@ -253,7 +281,10 @@ def initiator_case(ck, rng, i):
 
 
 VARIANTS = ['absent', 'correct', 'bitflip-1', 'bitflip-2', 'bitflip-3', 'truncated', 'extended', 'other-spi', 'other-nonce', 'other-source-address',
-            'right-then-wrong', 'wrong-then-right', 'both-wrong', 'previous-incarnation']
+            'right-then-wrong', 'wrong-then-right', 'both-wrong', 'previous-incarnation',
+            # the SPI under test is the one of a half-open IKE_SA that a valid-cookie retry created a moment ago
+            'half-open-spi:late-copy-of-the-cookieless-request', 'half-open-spi:cookie-request-replayed-from-another-address', 'half-open-spi:other-nonce-and-ke-no-cookie',
+            'half-open-spi:other-nonce-with-the-old-cookie']
 
 
 def run(ck):
@@ -280,6 +311,7 @@ def verdict(ck):
     ck.floor('requests that had to be refused with a cookie', c['responder.must_demand'], 150)
     ck.floor('valid cookies accepted under load', c['responder.valid_cookie_accepted'], 15)
     ck.floor('grid cells', len(ck.sets['responder.grid']), 400)
+    ck.floor('requests re-using the SPI of a half-open IKE_SA created through a cookie round', c['responder.half_open_spi_setups_with_cookie'], 60)
     ck.floor('initiator cookie challenges', c['initiator.cookie_challenges'], 20)
     ck.floor('initiators that completed after the cookie round', c['initiator.completed_after_cookie'], 10)
     ck.floor('second cookie challenges', c['initiator.second_challenges'], 8)
